@@ -264,8 +264,45 @@ def r3(R, tus, nm, lm):
     rets = [n_ for n_ in cfg.find_nodes(lambda n_: n_.k == "return")]
     R.shape(bool(regions) and bool(rets), "C13.R3", FILE, "localmaxlabel", "the parallel regions and the return statements")
     last = max(regions, key=lambda n_: n_.line or 0)
+    dims = [p_.name for p_ in lm.params if (p_.ty or "").strip() == "int"]
     for rn in rets:
-        R.check(last.id in cfg.dominators(rn.id), "C13.R3", FILE, rn.line, "localmaxlabel", "return %s after the walk stage" % (estr(rn.e) if rn.e is not None else ""),
+        dominated = last.id in cfg.dominators(rn.id)
+        if not dominated and len(dims) == 2:
+            # an exit for images that have no interior pixel at all (fewer than 3 rows or columns) skips stages that would not write
+            # anything: decided by evaluating the conditions on the way to the return for all shapes 0..6 x 0..6 - they must mention
+            # nothing but the two dimensions, and hold only where one of them is below 3
+            # the conditions on the way to the return: the tests of the enclosing if statements (a short-circuit '||' has no single
+            # dominating branch in the flow graph, so the statement structure is used)
+            conds = []
+
+            def find(st_, chain):
+                if st_ is rn.s:
+                    conds.extend(chain)
+                    return True
+                if st_ is None:
+                    return False
+                if st_.k == "if":
+                    return find(st_.then, chain + [(st_.cond, True)]) or find(getattr(st_, "els", None), chain + [(st_.cond, False)])
+                if st_.k == "block":
+                    return any(find(x_, chain) for x_ in st_.body)
+                return False
+            top_level = find(lm.body, [])
+            try:
+                if not top_level:
+                    raise crules.NotEvaluable("return inside a loop or other construct")
+                holds_at = []
+                for a_ in range(7):
+                    for b_ in range(7):
+                        env = {dims[0]: a_, dims[1]: b_}
+                        if all(bool(crules.ceval(e_, env)) == pol_ for e_, pol_ in conds):
+                            holds_at.append((a_, b_))
+                if conds and all(a_ < 3 or b_ < 3 for a_, b_ in holds_at):
+                    R.inst("C13.R3", "%s:localmaxlabel return at a shape test that holds only without interior pixels (%s)" % (
+                        FILE, " && ".join(("" if pol_ else "!") + "(" + estr(e_) + ")" for e_, pol_ in conds)))
+                    continue
+            except crules.NotEvaluable:
+                pass
+        R.check(dominated, "C13.R3", FILE, rn.line, "localmaxlabel", "return %s after the walk stage" % (estr(rn.e) if rn.e is not None else ""),
                 "this return is reached without running the walk stage, the only place where the interior labels of non-maximum pixels are "
                 "written: for such a frame (e.g. no interior maximum) the output keeps the labels of whatever was in the buffer before")
 
